@@ -247,12 +247,15 @@ func (s *sim) apply(a sAction, last bool) bool {
 		time.Sleep(11 * time.Second)
 	case "adv30m":
 		time.Sleep(31 * time.Minute)
-	case "adv12h":
-		time.Sleep(12 * time.Hour)
-	case "adv25h":
-		time.Sleep(25 * time.Hour)
-	case "adv40d":
-		time.Sleep(40 * 24 * time.Hour)
+	case "adv12h", "adv25h", "adv40d":
+		// A file held for a predecessor the stage knows nothing about re-scans the receive log
+		// every 10 s, each time farther back (real behaviour, ~10^7 file opens per simulated
+		// day): long clock jumps are only taken while no such retry timer is armed. (Files
+		// held for a predecessor that is in progress or failed carry no timer.)
+		if w.retryTimers() > 0 {
+			return false
+		}
+		time.Sleep(map[string]time.Duration{"adv12h": 12 * time.Hour, "adv25h": 25 * time.Hour, "adv40d": 40 * 24 * time.Hour}[a.Op])
 	case "restart":
 		runAsync(func() {})
 		w.settle()
